@@ -529,10 +529,10 @@ func shardEnv() (int, int) {
 }
 
 func TestC13_exhaustive3(t *testing.T) {
-	exhaustive(t, propC13, 3, []string{"ok", "err", "skip"}, 0, 1)
+	exhaustive(t, propC13, 3, []string{"ok", "err", "skip", "err-ok", "err-err"}, 0, 1)
 }
 func TestC14_exhaustive3(t *testing.T) {
-	exhaustive(t, propC14, 3, []string{"ok", "err", "skip"}, 0, 1)
+	exhaustive(t, propC14, 3, []string{"ok", "err", "skip", "err-ok"}, 0, 1, -1, 0, 1, 2)
 }
 func TestC13_exhaustive4(t *testing.T) {
 	sh, n := shardEnv()
